@@ -278,3 +278,47 @@ def lens_integrand_pointwise(c):
     c.ensures("parallel-integrand-formula", c.eq(ls.reshape(-1)[0], ps.reshape(-1)[0] * (cp * (cp * S2 + sp * S3) + sp * (cp * S4 + sp * S1))))
     c.ensures("perpendicular-integrand-formula", c.eq(rs.reshape(-1)[0], ps.reshape(-1)[0] * (sp * (cp * S2 + sp * S3) - cp * (cp * S4 + sp * S1))))
     c.canary("integrands-coincide", c.eq(ls, rs))
+
+
+@contract("C08", "integral_evaluation_mode", [TH + "mielensfunctions:MieLensCalculator._eval_mielens_i_n"],
+          bounded="radial arrays of 1, 2 and 5 points", max_paths=600)
+def integral_evaluation_mode(c):
+    """the radial pupil integrals are evaluated either directly or through the interpolator, never anything else and never an error:
+    interpolate_integrals=True -> interpolated, False -> direct, 'check' (the default) -> interpolated exactly when
+    degree * (max krho - min krho) / window < 1.1 * number of points; the result is that evaluation's, unchanged, for both integrals"""
+    mode = c.choice("interpolate_integrals", ["check", True, False])
+    npts = c.choice("points", [1, 2, 5])
+    n = c.choice("integral", [0, 2])
+    A = (lambda v: np.array(v, dtype=object if c.symbolic else float))
+    kr = [c.real("krho%d" % i, nonneg=True, sample=(0, 200)) for i in range(npts)]
+    window = c.real("window", pos=True, sample=(5, 60))
+    degree = c.choice("degree", [8, 32])
+    calls = []
+
+    class Calc(mlf.MieLensCalculator):
+        def __init__(self):
+            self.interpolate_integrals = mode
+            self.interpolator_window_size = window
+            self.interpolator_degree = degree
+
+        def _direct_eval_mielens_i_n(self, krho, n=0):
+            calls.append(('direct', n))
+            return np.array([opaque_complex("direct_I%d" % n, [v]) for v in np.asarray(krho, dtype=object).reshape(-1)],
+                            dtype=object if c.symbolic else complex).reshape(np.shape(krho))
+
+        def _interpolate_and_eval_mielens_i_n(self, krho, n=0):
+            calls.append(('interpolated', n))
+            return np.array([opaque_complex("interp_I%d" % n, [v]) for v in np.asarray(krho, dtype=object).reshape(-1)],
+                            dtype=object if c.symbolic else complex).reshape(np.shape(krho))
+
+    calc = Calc()
+    o = c.outcome(calc._eval_mielens_i_n, A(kr), n=n)
+    c.ensures("no-unexpected-exception", o.ok, detail=repr(o.exc))
+    if not o.ok:
+        return
+    c.ensures("exactly-one-evaluation-of-the-requested-integral", len(calls) == 1 and calls[0][1] == n)
+    spread = c.max(*kr) - c.min(*kr) if npts > 1 else 0
+    want_interp = True if mode is True else False if mode is False else c.lt(degree * spread / window, 1.1 * npts, tol=0)
+    c.ensures("mode-selects-the-evaluation", c.iff(calls[0][0] == 'interpolated', want_interp))
+    expect = [opaque_complex(("interp_I%d" if calls[0][0] == 'interpolated' else "direct_I%d") % n, [v]) for v in kr]
+    c.ensures("result-is-that-evaluations", c.eq(o.value, np.array(expect, dtype=object if c.symbolic else complex)))
